@@ -84,8 +84,8 @@ def generate(prog, props, log):
             else:
                 seen[n] = 1
             hyps, pc, goal = build_vc(v, ob)
-            text = solve.to_smt2(hyps, pc, goal)
-            jobs.append({"name": ob.name, "kind": ob.kind, "text": text, "func": short, "ln": ob.ln, "clause": ob.text,
+            text, fallback = solve.vc_texts(hyps, pc, goal)
+            jobs.append({"name": ob.name, "kind": ob.kind, "text": text, "fallback": fallback, "func": short, "ln": ob.ln, "clause": ob.text,
                          "canary": ob.canary, "verifier": v, "ob": ob})
         # vacuity: the assumed precondition (+ type facts) must be satisfiable
         pre = [x for x in v.facts[:getattr(v, "n_pre_facts", 0)] if not z3.is_true(x)]
@@ -122,7 +122,7 @@ def run(pid, tier, repo="/repo", out_evidence=True, quiet=False):
     tq = float(os.environ.get("GOVC_TQUICK", "3"))
     tf = float(os.environ.get("GOVC_TFULL", "20" if tier == "quick" else "120"))
     cross = tier == "thorough"
-    todo = [(j["name"], j["text"], tq, tf, cross and j.get("expect") != "sat") for j in jobs if "text" in j]
+    todo = [(j["name"], j["text"], tq, tf, cross and j.get("expect") != "sat", j.get("fallback")) for j in jobs if "text" in j]
     if seed:
         import random
         random.Random(seed).shuffle(todo)
